@@ -44,6 +44,7 @@ type collector struct {
 	byG    map[int64]*[]int
 	lost   int64
 	single bool // sequential mode: one goroutine, no attribution needed
+	stamps *stampLog
 }
 
 func (c *collector) gid() int64 {
@@ -71,7 +72,23 @@ type cb struct {
 	c  *collector
 }
 
+// stamp, when set, records the logical time of every callback per entry.
+type stampLog struct {
+	rec *hist.Recorder
+	mu  sync.Mutex
+	at  map[int][]int64
+}
+
 func (x *cb) Callback(e *waiter.Entry) {
+	if st := x.c.stamps; st != nil {
+		t := st.rec.Now()
+		st.mu.Lock()
+		st.at[x.id] = append(st.at[x.id], t)
+		st.mu.Unlock()
+		if t%3 == 0 {
+			runtime.Gosched() // a slow callback: widens any gap between selection and invocation
+		}
+	}
 	g := x.c.gid()
 	x.c.mu.Lock()
 	out := x.c.byG[g]
@@ -313,6 +330,7 @@ func concurrent() {
 				ents[k] = waiter.Entry{Callback: &cb{k, col}}
 			}
 			rec := &hist.Recorder{}
+			col.stamps = &stampLog{rec: rec, at: map[int][]int64{}}
 			g := 2 + r.Intn(5) // goroutines; each owns the entries e with e % g == c
 			var hw sync.WaitGroup
 			start := make(chan struct{})
@@ -391,6 +409,43 @@ func concurrent() {
 			}
 			if col.lost > 0 {
 				run.Violation("C17/concurrent/stray-callback", "callback invoked on a goroutine that was not inside Notify", ops)
+			}
+			// callback-time oracle: a callback on entry e at logical time t is legal only if t
+			// lies between the call of some EventRegister(e) and the return of the matching
+			// EventUnregister(e) (open-ended if never unregistered).
+			for e, stamps := range col.stamps.at {
+				type iv struct{ from, to int64 }
+				var ivs []iv
+				for _, o := range ops {
+					in := o.Input.(cin)
+					if in.Entry != e {
+						continue
+					}
+					if in.Kind == "reg" {
+						ivs = append(ivs, iv{o.Call, 1 << 62})
+					} else if in.Kind == "unreg" && len(ivs) > 0 {
+						// ops of one entry are issued sequentially by its owner, in history order per client
+						for k := len(ivs) - 1; k >= 0; k-- {
+							if ivs[k].from < o.Call && ivs[k].to == 1<<62 {
+								ivs[k].to = o.Return
+								break
+							}
+						}
+					}
+				}
+				for _, t := range stamps {
+					ok := false
+					for _, v := range ivs {
+						if t >= v.from && t <= v.to {
+							ok = true
+						}
+					}
+					if !ok {
+						run.Violation("C17/concurrent/callback-after-unregister", fmt.Sprintf("entry %d got a callback at logical time %d, outside every [EventRegister call, EventUnregister return] interval %v", e, t, ivs), describe(ops))
+						break
+					}
+				}
+				run.Count("callbacks_time_checked", int64(len(stamps)))
 			}
 			switch res {
 			case "illegal":
